@@ -410,6 +410,84 @@ def d7_all_equal_keys(chk: Check) -> None:
                "all read the inversion flag too")
 
 
+def d9_anchored_booleans_are_booleans(chk: Check) -> None:
+    """ruamel loads `true` as Python's True -- unless the node is anchored:
+    `&flag true` becomes a ScalarBoolean, an *int* subclass (not a bool)
+    whose text is `1`.  The decision table of search_matches is written
+    over bool / int / float / text; typed_value is what maps a haystack
+    onto those kinds, so it must turn a ScalarBoolean into a plain bool
+    before anything else looks at it.  Otherwise `[.=true]` misses every
+    anchored true and `[.!=true]` selects it."""
+    prog = chk.prog
+    chk.rule("C12-D9", "typed_value returns bool(value) for a ScalarBoolean "
+             "before its literal evaluation", floor=1)
+    fi = prog.func("Nodes.typed_value")
+    val = fi.params()[0]
+    evals = [c for c in walk_local(fi.node) if isinstance(c, ast.Call) and
+             src(c.func).endswith("literal_eval")]
+    if not evals:
+        raise AnalysisError("literal evaluation of typed_value not found")
+    arm = None
+    for st in fi.node.body:
+        if isinstance(st, ast.If) and isinstance(st.test, ast.Call) and \
+                src(st.test.func) == "isinstance" and \
+                src(st.test.args[0]) == val and \
+                "ScalarBoolean" in src(st.test.args[1]) and \
+                st.lineno < evals[0].lineno:
+            rets = [r for r in st.body if isinstance(r, ast.Return)]
+            if rets and isinstance(rets[0].value, ast.Call) and \
+                    src(rets[0].value.func) == "bool":
+                arm = st
+    text = "typed_value(<ScalarBoolean>)"
+    if arm is not None:
+        chk.ok("C12-D9", fi, arm, text, "returns bool(...) first")
+    else:
+        chk.fail("C12-D9", fi, evals[0], text,
+                 "an anchored boolean reaches the comparison as an int "
+                 "subclass whose text is `1` / `0`: `[.=true]` does not "
+                 "match `&flag true`, and the inverted search selects it")
+
+
+def d10_subject_judged_after_its_evidence(chk: Check) -> None:
+    """Where the search handler decides about the node it was *given* (the
+    descendant search `[a.b=x]` on a Hash, the scalar arm) rather than
+    about a child, any loop involved only gathers evidence.  The verdict
+    -- with the inversion flag -- is taken after that loop, so that a node
+    with no evidence at all (the attribute path matches nothing) still
+    gets one: it is not selected by `[a.b=x]` and is selected by
+    `[a.b!=x]`.  A yield of the node itself from inside the loop never
+    runs for such a node, and it is in neither result."""
+    prog = chk.prog
+    chk.rule("C12-D10", "the search handler yields the node it was given "
+             "(not a child) only outside loops", floor=2)
+    fi = prog.func("Processor._get_nodes_by_search")
+    data = fi.params()[1]
+    n = 0
+    for y in walk_local(fi.node):
+        if not (isinstance(y, ast.Yield) and isinstance(y.value, ast.Call)
+                and src(y.value.func) == "NodeCoords" and y.value.args and
+                src(y.value.args[0]) == data):
+            continue
+        n += 1
+        loops = [a for a in ancestors(y)
+                 if isinstance(a, (ast.For, ast.While))]
+        text = "yield NodeCoords({}, ...) at line {}".format(
+            data, "(n/a)")
+        if loops:
+            chk.fail("C12-D10", fi, y, text,
+                     "the node itself is yielded from inside `for {} in "
+                     "{}`: when that loop has nothing to iterate over the "
+                     "node is judged neither for the plain nor for the "
+                     "inverted search".format(
+                         src(loops[0].target),
+                         src(loops[0].iter)[:40]
+                         if isinstance(loops[0], ast.For) else "..."))
+        else:
+            chk.ok("C12-D10", fi, y, text, "after the evidence is in")
+    if n < 2:
+        raise AnalysisError("yields of the given node: {}".format(n))
+
+
 def run(chk: Check) -> None:
     d1_table(chk)
     d3_typed_value(chk)
@@ -420,4 +498,6 @@ def run(chk: Check) -> None:
     # the verdict judged for an element is the one computed for it
     from rules.c01 import d4c_verdict_per_element
     d4c_verdict_per_element(chk, "C12-D8")
+    d9_anchored_booleans_are_booleans(chk)
+    d10_subject_judged_after_its_evidence(chk)
 
